@@ -451,7 +451,7 @@ def one_case(ctx, ci, forced=None):
                         x["kind"] == "mem" and x["idx"] not in exp["loaded"] and nm in x["defs"] and pos[x["idx"]] < pos[wu["idx"]]
                         for x in case["units"]):
                     sig = f"binding:ref={ref}:wild={kb}:earlier-unloaded-archive-member-defines-name"
-                if u["kind"] == "lib":
+                if u["kind"] == "lib" and ka != "unique":
                     sig += ":viewer=shared-library"
                 sigs.setdefault(sig, label)
             for sig, label in sigs.items():
